@@ -9,6 +9,7 @@
 //! (ECMAScript NumericToRawBytes / Table 73 conversion operations ToInt8 ... ToUint8Clamp), for EVERY double.
 
 // ASSUME-FILE[assume]: input class selection only.
+// ASSUME-FILE[drop]: the `JsValue` built from an element is wrapped in ManuallyDrop (see root.rs).
 
 use super::*;
 use crate::verif_kani::spec;
@@ -162,6 +163,24 @@ fn c15_element_to_bits() {
     kani::cover!(matches!(e, TypedArrayElement::Int8(v) if v < 0));
     kani::cover!(matches!(e, TypedArrayElement::Float32(_)));
     assert!(e.to_bits() == s_to_bits(e));
+}
+
+
+/// Reading an element into a JavaScript value (the typed-array route into `JsValue`): a Number kind yields
+/// a Number with exactly the element's value - every Float64 bit pattern included (NaN payloads arrive as the
+/// canonical NaN, never as another type).
+// ALSO: C12
+// FN: <JsValue as From<TypedArrayElement>>::from
+#[kani::proof]
+fn c15_element_into_jsvalue() {
+    let e = any_number_element();
+    kani::cover!(matches!(e, TypedArrayElement::Float64(f) if f.is_nan() && f.to_bits() >> 48 == 0xFFFC));
+    kani::cover!(matches!(e, TypedArrayElement::Int8(v) if v < 0));
+    let want = e.as_f64();
+    let v = std::mem::ManuallyDrop::new(JsValue::from(e));
+    assert!(v.is_number() && !v.is_object() && !v.is_string() && !v.is_bigint() && !v.is_symbol() && !v.is_boolean());
+    let Some(n) = v.as_number() else { panic!("a typed-array element did not become a Number") };
+    assert!(n.to_bits() == if want.is_nan() { 0x7FF8_0000_0000_0000 } else { want.to_bits() });
 }
 
 #[kani::proof]
